@@ -190,6 +190,20 @@ pub open spec fn sent_payload(p: Packet) -> Seq<u8> {
 }
 // Encoding then decoding: `bytes` is what the encoder contract (enc_post, r is Ok) yields for p,
 // q is what the decoder contract (dec_post) yields for those bytes.
+// the encoder's image has no marker, or marker + non-empty payload in a message whose code is not 0.00
+proof fn lemma_wire_shape(b: Seq<u8>, pre: Seq<u8>, opts: Seq<(u16, Seq<u8>)>, tail: Seq<u8>)
+    requires
+        b == pre + wire_opts(opts, 0) + tail, b.len() >= 4, pre.len() == 4 + (b[0] as int) % 16,
+        parse_opts(b, pre.len() as int, 0) == Some((opts, payload_of(tail))),
+        tail.len() == 0 || (tail.len() > 1 && b[1] != 0),
+    ensures enc_shape(b)
+{
+    let idx = pre.len() as int;
+    lemma_wire_parse(b, idx, 0);
+    assert(b.subrange(idx, b.len() as int) =~= wire_opts(opts, 0) + tail);
+    assert(b.subrange(idx, b.len() as int) == wire_opts(opts, 0) + tail_of(b, idx));
+    assert(tail_of(b, idx).len() == tail.len());
+}
 proof fn theorem_c01_encode_then_decode(p: Packet, r_enc: Result<Vec<u8>, MessageError>, r_dec: Result<Packet, MessageError>)
     requires
         pkt_wf(p), enc_pre(p),
@@ -227,15 +241,9 @@ proof fn theorem_c01_encode_then_decode(p: Packet, r_enc: Result<Vec<u8>, Messag
     assert(((mid / 256) as u8 as int) * 256 + ((mid % 256) as u8 as int) == mid as int);
     let m = parse_msg(b);
     assert(m is Some);
-    // the encoder's image never ends in a bare marker: its tail is empty or marker + non-empty payload
-    assert(!lone_marker(b)) by {
-        let idx = pre.len() as int;
-        assert(idx == 4 + (b[0] as int) % 16) by { lemma_nibbles(vtt); }
-        lemma_wire_parse(b, idx, 0);
-        assert(b.subrange(idx, b.len() as int) =~= wire_opts(opts, 0) + tail);
-        assert(b.subrange(idx, b.len() as int) == wire_opts(opts, 0) + tail_of(b, idx));
-        assert(tail_of(b, idx).len() == tail.len());
-    }
+    // the encoder's image has no marker, or marker + non-empty payload in a message whose code is not 0.00
+    assert(pre.len() == 4 + (b[0] as int) % 16) by { lemma_nibbles(vtt); }
+    lemma_wire_shape(b, pre, opts, tail);
     assert(m->0.opts == opts);
     assert(m->0.payload == payload_of(tail));
     assert(payload_of(tail) =~= (if code != 0 { p.payload@ } else { Seq::<u8>::empty() })) by {
